@@ -4,7 +4,7 @@ import ast
 from ..loader import AnalysisError, walk_shallow, FuncInfo, ClassInfo
 from ..cfg import CFG
 from ..astutil import src, call_name, method_name, const, stmts_in, target_names
-from ..schema import extract, spec
+from ..schema import extract, split_conditionals, spec
 from ..guards import constraints_when, VALIDATOR_LOWER
 from ..report import Finding
 from ._family_specs import SPECS, HELPERS
@@ -27,6 +27,8 @@ def check_axioms(R, prog, P, members):
             text = "%s%s: %s(%s)" % (" ".join("for %s in %s" % (t, d) for t, d in quants), (" if " + " and ".join(guards)) if guards else "",
                                      builder, ", ".join(args))
             want[(tuple(tuple(x) for x in quants), tuple(guards), builder, tuple(args))] = text
+        got = {k2: e for k, e in got.items() for k2 in split_conditionals(k)}
+        want = {k2: line for k, line in want.items() for k2 in split_conditionals(k)}
         for k, line in want.items():
             total += 1
             if k in got:
